@@ -28,4 +28,49 @@ def lockerValue : List Tok := [.rlock, .read, .runlock, .if_, .ret, .fi, .if_, .
 def lockerKeys : List Tok := [.rlock, .deferRUnlock, .len, .range, .ret]
 def lockerCommit : List Tok := [.unlockCB, .dataNil, .ret]
 
+/-! ### The get-or-create idiom (`get_or_create_once`, `get_or_create_once_services`)
+
+`Goat.DataScope.getOrCreate s c = [.lock s, .lget c, .lcreate c, .commit]` stands for
+
+    l := scp.LockData(); v := l.Value(key); if v == nil { v = create(); l.SetValue(key, v) }; l.Commit(); return v
+
+What the theorem's proof needs of a caller: the read of the key happens UNDER the lock, the test is on
+that read, the instance created is the one stored under the same key and the one returned, the lock is
+released exactly once on every path, and the scope itself (`scp.Value/SetValue/Keys`) is not used by the
+function.  The three forms below are the admissible spellings found in /repo (no service has an error
+path between `LockData` and `Commit`: none of the three constructors can fail).  Keys and variables
+are numbered by first appearance (see `Tok.lean`). -/
+
+/-- `tasks.Unit.FromScope`: `defer l.Commit()`, early return of the instance found -/
+def getOrCreateDeferred : List ITok :=
+  [.lock, .deferCommit, .value 0 0, .ifNotNil 0, .ret [.assertOf 0, .nil], .fi,
+   .create 1, .setValue 0 1, .ret [.var 1, .nil]]
+
+/-- `waits.WaitManager.ForScope`: create under `if v == nil`, typed copy in the `else`, `Commit`, `return` -/
+def getOrCreateCommit : List ITok :=
+  [.lock, .value 0 0, .ifNil 0, .create 1, .setValue 0 1, .else_, .assert 1 0, .fi, .commit, .ret [.var 1, .nil]]
+
+/-- `envs.Unit.Envs`: the same with `return v, l.Commit()` -/
+def getOrCreateRetCommit : List ITok :=
+  [.lock, .value 0 0, .ifNil 0, .create 1, .setValue 0 1, .else_, .assert 1 0, .fi, .ret [.var 1, .commit]]
+
+def idiomShapes : List (List ITok) := [getOrCreateDeferred, getOrCreateCommit, getOrCreateRetCommit]
+
+/-- exactly these functions of the repository (outside package `datascope` and tests) mention `LockData`
+(`<directory>.<receiver>.<function>`); a new user has to be looked at -/
+def idiomUsers : List String :=
+  ["app/modules/commonm/commservices/envs.Unit.Envs",
+   "app/modules/commonm/commservices/waits.WaitManager.ForScope",
+   "app/modules/pipelinem/pipservices/tasks.Unit.FromScope"]
+
+/-- `get_or_create_once` assumes that nobody writes the service's key with a plain `SetValue` while
+callers run (`isKeyNoise`).  These are all the functions, in the packages of the three services, that
+write a service key without a locker: `BindScope` and `Clear` are the explicit "replace / forget the
+manager" operations of the tasks unit, `TaskManager.Create` stores the manager in a child scope it has
+just created.  They are outside the theorem (its hypothesis `hn`); a new one has to be looked at. -/
+def keyPlainWriters : List String :=
+  ["app/modules/pipelinem/pipservices/tasks.TaskManager.Create",
+   "app/modules/pipelinem/pipservices/tasks.Unit.BindScope",
+   "app/modules/pipelinem/pipservices/tasks.Unit.Clear"]
+
 end Goat.Tie.C13.Expected
